@@ -922,7 +922,7 @@ def run(ctx):
 
 
 MANIFEST_ENTRY = {
-    "technique": "static analysis: MIR provenance of cache keys vs constructor captures in the 7 formatter getters; MIR lock-discipline (who may touch FORMATTERS, dominance order inside with_mut, poison recovery, no re-entrance over the call graph); table agreement parser <-> book <-> macro enums/ToTokens <-> run-time conversions (syn); MIR parameter pass-through of the 18 entry points; option-capability table vs `.expect`ed constructors",
+    "technique": "static analysis: MIR cache-key provenance and lock discipline of the formatter cache, closure summaries of the seven constructors (which ICU constructor, with the getter's own locale / options), decision tables by abstract evaluation for from_args_helper / parse_formatter_args, option tables book <-> parser <-> macro <-> run time, frozen ICU4X capability table (D20)",
     "level_text": "Structural clauses only: (locale, options) keying is complete and uncomputed, lookup+insert is one write-locked critical section that survives poisoning and cannot re-enter, option names/values/defaults agree across book, parser, macro and run time, whitespace is trimmed, all entry points share the getter with their own arguments. The textual result of ICU4X formatting and real thread schedules are not applicable to static analysis and are not claimed.",
     "level_note": "Known finding D20: time_length full/long panic at run time (ICU4X non-zoned formatters). Fixed upstream: D19 (book arg name), D21 (lock poisoning).",
 }
